@@ -15,6 +15,8 @@
 #include <exception>
 #include <typeinfo>
 #include <cxxabi.h>
+#include <link.h>
+#include <dlfcn.h>
 
 extern "C" {
 void __tsan_ignore_thread_begin(const char *, int) __attribute__((weak));
@@ -459,10 +461,95 @@ int maps_audit(int op_index) {
 	return bad;
 }
 
+// ------------------------------------------------------------------ guard on the library's writable globals
+static uintptr_t g_lib_base = 0, g_gdata_lo = 0, g_gdata_hi = 0, g_asm_lo = 0, g_asm_hi = 0;
+static volatile int g_globals_armed = 0;
+struct GWrite { int task; uintptr_t addr; int pc_class; };
+static GWrite g_gw[512];
+static volatile int g_ngw = 0;
+static uintptr_t g_opened[128];
+static volatile int g_nopened = 0;
+static uint64_t g_gw_seen = 0;
+
+static int gg_phdr_cb(struct dl_phdr_info *info, size_t, void *) {
+	if (!info->dlpi_name || !strstr(info->dlpi_name, "librx.so")) return 0;
+	g_lib_base = info->dlpi_addr;
+	uintptr_t relro_hi = 0;
+	for (int i = 0; i < info->dlpi_phnum; ++i)
+		if (info->dlpi_phdr[i].p_type == PT_GNU_RELRO) relro_hi = info->dlpi_addr + info->dlpi_phdr[i].p_vaddr + info->dlpi_phdr[i].p_memsz;
+	for (int i = 0; i < info->dlpi_phnum; ++i) {
+		const ElfW(Phdr) &ph = info->dlpi_phdr[i];
+		if (ph.p_type != PT_LOAD || !(ph.p_flags & PF_W)) continue;
+		uintptr_t lo = info->dlpi_addr + ph.p_vaddr, hi = lo + ph.p_memsz;
+		if (relro_hi > lo && relro_hi < hi) lo = relro_hi;
+		lo = (lo + PG - 1) & ~(PG - 1);   // a page shared with read-only-after-relocation data stays as it is
+		hi = (hi + PG - 1) & ~(PG - 1);
+		if (hi > lo) { g_gdata_lo = lo; g_gdata_hi = hi; }
+	}
+	return 0;
+}
+
+void globals_guard_arm() {
+	if (!kArena) return;
+	if (!g_lib_base) {
+		dl_iterate_phdr(gg_phdr_cb, nullptr);
+		void *a = dlsym(RTLD_DEFAULT, "randomx_prefetch_scratchpad"), *b = dlsym(RTLD_DEFAULT, "randomx_reciprocal_fast");
+		if (a && b) { g_asm_lo = (uintptr_t)a; g_asm_hi = (uintptr_t)b + 256; }
+	}
+	if (!g_gdata_lo) return;
+	g_ngw = 0; g_nopened = 0;
+	mprotect((void *)g_gdata_lo, g_gdata_hi - g_gdata_lo, PROT_READ);
+	g_globals_armed = 1;
+}
+void globals_guard_rearm() {
+	if (!g_globals_armed) return;
+	for (int i = 0; i < g_nopened; ++i) mprotect((void *)g_opened[i], PG, PROT_READ);
+	g_nopened = 0;
+}
+std::vector<GlobalWriteRace> globals_guard_disarm(uint64_t *writes_seen) {
+	std::vector<GlobalWriteRace> out;
+	if (writes_seen) *writes_seen = g_gw_seen;
+	if (!g_globals_armed) return out;
+	g_globals_armed = 0;
+	mprotect((void *)g_gdata_lo, g_gdata_hi - g_gdata_lo, PROT_READ | PROT_WRITE);
+	InSeam g;
+	std::map<uintptr_t, std::pair<std::vector<int>, int>> by_addr;
+	for (int i = 0; i < g_ngw; ++i) {
+		auto &e = by_addr[g_gw[i].addr & ~(uintptr_t)7];
+		if (std::find(e.first.begin(), e.first.end(), g_gw[i].task) == e.first.end()) e.first.push_back(g_gw[i].task);
+		e.second = g_gw[i].pc_class;
+	}
+	for (auto &kv : by_addr) if (kv.second.first.size() >= 2) out.push_back(GlobalWriteRace{kv.first - g_lib_base, (int)kv.second.first.size(), kv.second.second});
+	g_ngw = 0;
+	return out;
+}
+
+// returns true if the fault was a guarded global write that has been recorded and opened (the instruction restarts)
+static bool globals_guard_fault(uintptr_t addr, uintptr_t pc, bool is_write) {
+	if (!g_globals_armed || !is_write || addr < g_gdata_lo || addr >= g_gdata_hi) return false;
+	int cls = 0;
+	if (pc >= g_asm_lo && pc < g_asm_hi) cls = 2;
+	else { Block *b = find_containing(pc, nullptr); if (b && b->state == ST_LIVE && (b->kind == RQ_MMAP || b->kind == RQ_MMAP_HUGE)) cls = 1; }
+	if (cls) {
+		++g_gw_seen;
+		int n = g_ngw;
+		if (n < 512) { g_gw[n].task = rt::sched_current_task(); g_gw[n].addr = addr; g_gw[n].pc_class = cls; g_ngw = n + 1; }
+	}
+	uintptr_t page = addr & ~(PG - 1);
+	mprotect((void *)page, PG, PROT_READ | PROT_WRITE);
+	int k = g_nopened;
+	if (k < 128) { g_opened[k] = page; g_nopened = k + 1; }
+	return true;
+}
+
 // ------------------------------------------------------------------ crash capture
 static char g_altstack[1 << 16];
 
 static void crash_handler(int sig, siginfo_t *si, void *uc_) {
+	if (sig == SIGSEGV && g_globals_armed) {
+		ucontext_t *u = (ucontext_t *)uc_;
+		if (globals_guard_fault((uintptr_t)si->si_addr, (uintptr_t)u->uc_mcontext.gregs[REG_RIP], ((unsigned long)u->uc_mcontext.gregs[REG_ERR] & 2) != 0)) return;
+	}
 	static volatile int entered = 0;
 	if (entered) _exit(4);
 	entered = 1;
